@@ -39,6 +39,11 @@ SIGSYS  == 31
 NonTerminating == {17, 18, 19, 20, 21, 22, 23, 28}
 TermSignals    == (1..64) \ NonTerminating
 ExitCodes      == 0..255
+\* default action "core": the wait status of a process ended by one of these carries the
+\* core-dump flag 0x80 when a dump was produced.  The flag is not part of the signal number.
+SIGQUIT == 3
+SIGABRT == 6
+CoreSigs == {SIGQUIT, SIGILL, SIGTRAP, SIGABRT, SIGBUS, SIGFPE, SIGSEGV, SIGXCPU, SIGXFSZ, SIGSYS}
 
 ExitEnd(n) == [k |-> "exit",   n |-> n]
 SigEnd(s)  == [k |-> "signal", n |-> s]
